@@ -33,25 +33,56 @@ THEOREMS = [
     "C18_agree_refuted_old_realpath", "C18_agree_refuted_old_rectype", "C18_agree_refuted_old_autolink",
     "C18_agree_refuted_old_recursive_follows", "C18_old_deviations_exact", "C18_strict_reading_differs",
     "C18_in_scope_satisfiable",
+    "C18_many_single", "C18_many_agree", "C18_many_recursive_first_only", "C18_many_satisfiable",
+    "C18_agree_refuted_old_origin_uncaught", "C18_many_usage_after_lines",
 ]
-RULE = ("every one of the 1680 configurations (argument kind x --type x dereference x filename x recursive x "
-        "verify x exclude) on each generated fixture set (random file contents, names - every second set with names "
-        "that are not valid UTF-8, for the arguments too -, tree shapes with identical files/directories and an inner "
-        "symlink, relative/absolute link targets, URL schemes, git repository with commits, branch, lightweight / "
-        "annotated / tree tags, packed or loose refs), plus 30 sampled configurations per set through a real "
-        "`python -m swh.model.cli` subprocess; non-trivial = at least 2 options away from their default; distinct = "
-        "distinct (fixture seed, configuration, runner)")
+RULE = ("(1) every one of the 2400 one-argument configurations (argument kind - the seven of the statement plus "
+        "'missing' (no scheme, no such path), 'badurl' (urlparse raises) and 'refusedurl' (a scheme, but model.Origin "
+        "refuses the URL) - x --type x dereference x filename x "
+        "recursive x verify x exclude) on each generated fixture set (random file contents, names - every second set "
+        "with names that are not valid UTF-8, for the arguments too -, tree shapes with identical files/directories "
+        "and an inner symlink, relative/absolute link targets, URL schemes, git repository with commits, branch, "
+        "lightweight / annotated / tree tags, packed or loose refs), plus sampled configurations per set through a "
+        "real `python -m swh.model.cli` subprocess; (2) invocations with SEVERAL arguments (1..6, mostly 2..5) per "
+        "fixture set: directories (the same one twice, different trees, nested ones, a link to one, a git repository) "
+        "mixed with files, links with and without --dereference, '-' at most once, URLs, each with per-invocation "
+        "options: 0..3 --exclude patterns chosen so that one matches a directory of a LATER argument and not of the "
+        "first (and the other way round), --filename/--no-filename, --type auto or explicit (suiting every argument, "
+        "or not: error after the lines already printed), --verify (refused with several arguments), --recursive "
+        "(first argument only); each output line is compared, in order, with the library call for that argument "
+        "(Directory.from_disk with the library's own pattern filter rooted at that argument), with the extracted "
+        "model identify_many, and - in scope - with what one invocation per argument prints; non-trivial = at least 2 "
+        "options away from their default (one-argument) / at least 2 arguments and 1 such option (several); distinct "
+        "= distinct (fixture seed, configuration or argument list + options, runner); (3) arguments that name no "
+        "existing path, one string at a time: malformed bracket hosts and unbalanced brackets anywhere in the netloc, "
+        "'//[', 'http://[::1', 'scheme://]', netlocs invalid under NFKC, strings of 2 kB..70 kB, NUL / newline / blank / "
+        "empty strings, bare schemes 'x:', ':', '::', 'C:\\path', 'file:///nonexistent', strings starting with '-' "
+        "(after '--'), strings that are not valid UTF-8 (surrogateescape), plus random short strings over those "
+        "characters; each string is classified by urllib.parse.urlparse and model.Origin themselves (url / missing / "
+        "badurl / refusedurl) and run under --type auto and every explicit type with several option combinations, in "
+        "process and (without NUL) through the real subprocess; the same strings appear as arguments of the "
+        "several-arguments route at any position")
 TRUSTED = ["click option parsing, os.path.*, os.scandir, dulwich and git are modelled by a table per argument kind "
-           "(model/Cli.v: isfile/isdir/islink/lstat/stat/urlparse scheme/is-a-git-repository), not verified",
+           "(model/Cli.v: isfile/isdir/islink/lstat/stat/urlparse scheme/urlparse raises/Origin refuses/is-a-git-repository), "
+           "not verified; which kind a string argument has is decided by calling urlparse and model.Origin on it",
            "the identifiers themselves are the library's (Content.from_file/from_bytes, Directory.from_disk, "
            "Origin.swhid, Snapshot.swhid): C18 is about which object the command designates and what it prints"]
-ASSUMPTIONS = ["exactly one OBJECT argument; no file named '-' in the working directory; the argument of kind url has "
+ASSUMPTIONS = ["one-argument table: exactly one OBJECT argument; several-arguments route: any number, in scope when every "
+               "argument is in scope under the shared options and --recursive is off (with several arguments the "
+               "command applies -r to the first one and ignores the others: recorded as theorem "
+               "C18_many_recursive_first_only, compared with the model, not counted as a violation); exclusion "
+               "patterns mean whatever the library's ignore_directories_patterns makes of them (fnmatch on the "
+               "root-relative path), nothing more is assumed; no file named '-' in the working directory; the argument of kind url has "
                "a scheme and is not an existing path; distinct designated objects of one fixture set have distinct "
                "identifiers (asserted when the fixtures are built)",
                "explicit --type: in scope when it equals the type of the designated object (content for file, "
                "link->file, stdin and for any link that is not followed; directory for dir, followed link->dir, git "
                "repository; origin for url; snapshot for git repository); '-t directory --no-dereference <link>' and "
-               "an explicit non-content type on '-' are out of scope (still compared with the model)",
+               "an explicit non-content type on '-' are out of scope (still compared with the model); for an argument "
+               "that cannot be identified (kinds missing, badurl) only --type auto is in scope, for a refused URL auto "
+               "and origin: the specification is a usage error, never an unhandled exception; out of scope, the class "
+               "of the error behind '-t content/directory <string>' (no such file / name too long / embedded NUL) and "
+               "the refusal of '-t origin <string the library refuses>' are taken from the library call itself",
                "verification takes a core SWHID: an origin has none, so '--verify swh:1:ori:...' is a usage error "
                "(documented by the option's error message); --recursive is documented (warning) as disabled on a "
                "non-directory; the stricter reading is theorem C18_strict_reading_differs",
@@ -59,7 +90,8 @@ ASSUMPTIONS = ["exactly one OBJECT argument; no file named '-' in the working di
                "stdout has under the C/POSIX locale; the subprocess runs use the real stream"]
 CASE_TIMEOUT = 60
 
-KINDS = ["file", "dir", "linkfile", "linkdir", "stdin", "url", "gitrepo"]
+KINDS = ["file", "dir", "linkfile", "linkdir", "stdin", "url", "gitrepo", "missing", "badurl", "refusedurl"]
+STRING_KINDS = ("url", "missing", "badurl", "refusedurl")      # arguments that are not paths: the string itself
 TYPES = ["auto", "content", "directory", "origin", "snapshot"]
 VERS = ["none", "match", "nonmatch"]
 
@@ -104,6 +136,109 @@ def table_row(cfg):
         for c, r in zip(cfgs, resp):
             _TABLE[tuple(c)] = parse_row(r)
     return _TABLE[tuple(cfg)]
+
+
+# ------------------------------------------------------------------ arguments that are not existing paths
+def string_pool(rng=None):
+    """every family of argument that names no existing path; `n` varies the strings between fixture sets"""
+    n = rng.randrange(10 ** 6) if rng else 7
+    pool = [
+        # malformed authority: urlparse itself raises ValueError
+        "https://[2001:db8::%d/repo.git" % n, "https://2001:db8::%d]/repo.git" % n, "https://[git%d.example.org]/repo.git" % n,
+        "//[", "//]", "http://[::1", "scheme://]", "x%d://]:80/" % n, "git://[host%d/x" % n, "ssh://user@[::1/x", "//a]b/c%d" % n,
+        "http://a\u2100b%d/" % n, "//a\uff03b", "https://ex\u2101mple.org/%d" % n, "http://[v1.x]/", "ftp://[/", "a://[]/",
+        # no scheme, no such path
+        "", " ", "   ", "\t", "\n", ":", "::", ":/", "no/such/path%d" % n, "/nonexistent/%d" % n, "-x", "--foo", "-https://a", "--",
+        "1:2", "1a:b", "a_b:c%d" % n, "~nobody%d" % n, "%41:", "a\x00b", "\x00", "a\nb%d" % n, "q/" * 3000, "p" * 5000,
+        "f\udcff%d" % n, "\udce9t\udce9/%d" % n, "?x=%d" % n, "#frag", "//host%d/path" % n, "//", "./nope%d" % n,
+        # a scheme: an origin
+        "x:", "x%d:" % n, "C:\\path\\file%d" % n, "c:/dir", "file:///nonexistent/%d" % n, "https://h/\x00%d" % n,
+        "https://h/a\nb%d" % n, " https://a.b/%d" % n, "https://a.b/%d " % n, "https://[2001:db8::1]/r%d.git" % n,
+        "a+b.c-d:rest%d" % n, "mailto:x%d@y" % n, "urn:a:b:%d" % n, "HTTP://UPPER/%d" % n, "h2://\u00e9\u20ac/%d" % n,
+        "x:" + "y" * 2040, "javascript:alert(%d)" % n, "data:,%d" % n,
+        # a scheme, but the library refuses the URL: 2048 bytes or more, not valid UTF-8
+        "https://example.org/" + "a" * 2100, "x:" + "\u20ac" * 700, "https://example.org/%d/" % n + "b" * 70000,
+        "https://h/\udcff%d" % n, "x:\udcff", "git+ssh://\udce9@h/%d" % n, "y:" + "z" * 2046,
+    ]
+    out = []
+    for x in pool:
+        if x not in out:
+            out.append(x)
+    return out
+
+
+def random_strings(rng, n):
+    """short strings over the characters that matter to urlparse / the file system / the terminal"""
+    alphabet = ["[", "]", ":", "/", "@", ".", "#", "?", "%", "-", " ", "\t", "\n", "\x00", "\u2100", "\uff03", "\u00e9",
+                "\udcff", "a", "b", "z", "0", "9", "+", "_", "\\", "~", "="]
+    out = []
+    for _ in range(n):
+        body = "".join(rng.choice(alphabet) for _ in range(rng.randrange(1, 12)))
+        out.append(rng.choice(["", "", "http://", "//", "x:", "https://[", "a://b", "-"]) + body)
+    return out
+
+
+def classify_string(s, dirs=()):
+    """kind of a non-path argument, decided by the code the command itself relies on: urllib.parse.urlparse and
+    model.Origin.  None when the string is '-' or names something that exists (in the working directory or in dirs)."""
+    from urllib.parse import urlparse
+    from swh.model import model as M
+    if s == "-":
+        return None
+    for d in ("",) + tuple(dirs):
+        try:
+            if os.path.lexists(os.path.join(d, s) if d else s):
+                return None
+        except ValueError:
+            pass
+    try:
+        scheme = urlparse(s).scheme
+    except ValueError:
+        return "badurl"
+    if not scheme:
+        return "missing"
+    try:
+        M.Origin(url=s).swhid()
+    except ValueError:
+        return "refusedurl"
+    return "url"
+
+
+def opens_as_repo(s):
+    """dulwich opens the string as a repository ('' is the working directory for it): then -t snapshot <string> is not
+    a case of 'names nothing that exists'"""
+    import dulwich.repo
+    try:
+        dulwich.repo.Repo(s).close()
+        return True
+    except Exception:
+        return False
+
+
+def origin_id(s):
+    """the identifier the library computes for the origin of URL s; None when the library refuses the URL"""
+    from swh.model import model as M
+    try:
+        return str(M.Origin(url=s).swhid())
+    except ValueError:
+        return None
+
+
+def library_error(cfg_type, arg, excluded):
+    """class of the exception the library call behind an explicit --type raises for a string that is no path"""
+    from swh.model import from_disk
+    try:
+        path = os.fsencode(arg)
+        if cfg_type == "content":
+            from_disk.Content.from_file(path=path)
+        else:
+            _dir_id(path, excluded)
+    except Exception as e:
+        return type(e).__name__
+    return None
+
+
+PLACEHOLDER = "swh:1:cnt:" + "0" * 40       # --verify value when nothing is designated
 
 
 # ------------------------------------------------------------------ fixtures
@@ -155,9 +290,11 @@ def _rdata(rng):
     return ("text-%d" % rng.randrange(10 ** 9)).encode()
 
 
-def _populate(rng, top, nonutf8, depth=0):
+def _populate(rng, top, nonutf8, tag=b"A"):
     """nested directories, identical files, an inner symlink, an executable, an empty directory; always a
-    directory whose name starts with b'sub' (the exclusion pattern is sub*)"""
+    directory whose name starts with b'sub' (the exclusion pattern of the one-argument table is sub*), and - for
+    the invocations with several arguments - a directory only_<tag>* at the top and one inside sub*, so that a
+    pattern can match something in one tree and nothing in another.  Returns (sub, other): two nested directories."""
     os.mkdir(top)
     shared = _rdata(rng)
     names = set()
@@ -195,6 +332,12 @@ def _populate(rng, top, nonutf8, depth=0):
     for _ in range(rng.randrange(0, 3)):
         with open(os.path.join(top, fresh()), "wb") as f:
             f.write(_rdata(rng))
+    for where in (top, sub):
+        only = os.path.join(where, b"only_" + tag + _rname(rng, nonutf8))
+        os.mkdir(only)
+        with open(os.path.join(only, _rname(rng, nonutf8)), "wb") as f:
+            f.write(_rdata(rng))
+    return sub, other
 
 
 def build_fixture(fxspec):
@@ -203,7 +346,7 @@ def build_fixture(fxspec):
     nonutf8 = bool(fxspec.get("nonutf8"))           # names inside the trees, link texts
     nonutf8_arg = bool(fxspec.get("nonutf8_arg"))   # names of the arguments themselves
     root = tempfile.mkdtemp(prefix="c18-").encode()
-    fx = {"root": root, "spec": dict(fxspec)}
+    fx = {"root": root, "spec": dict(fxspec), "_dirs": {}}
     try:
         used = set()
 
@@ -221,13 +364,13 @@ def build_fixture(fxspec):
         if rng.random() < 0.3:
             os.chmod(fx["file"], 0o755)
         fx["dir"] = top(b"t")
-        _populate(rng, fx["dir"], nonutf8)
+        fx["dir_sub"], fx["dir_other"] = _populate(rng, fx["dir"], nonutf8, b"A")
         fx["linkfile"] = top(b"lf")
         # relative or absolute link text
         tgt = os.path.basename(fx["file"]) if rng.random() < 0.7 else fx["file"]
         os.symlink(tgt, fx["linkfile"])
         fx["linkdir_target"] = top(b"lt")
-        _populate(rng, fx["linkdir_target"], nonutf8)
+        _populate(rng, fx["linkdir_target"], nonutf8, b"B")
         fx["linkdir"] = top(b"ld")
         tgt = os.path.basename(fx["linkdir_target"]) if rng.random() < 0.7 else fx["linkdir_target"]
         os.symlink(tgt, fx["linkdir"])
@@ -240,6 +383,20 @@ def build_fixture(fxspec):
             fx["url"] = rng.choice(["file:///srv/git/project%d.git" % n, "lp:~user%d/project/trunk" % n,
                                     "mailto:someone%d@example.org" % n, "urn:x-swh:%d" % n, "git://%d" % n,
                                     "ssh://git@host%d:2222/~user/repo.git" % n, "a%d:b" % n])
+        fx["url2"] = "https://other%d.example.org/%s" % (rng.randrange(1000), rng.choice(["r.git", "a/b/c", "x?y"]))
+        # arguments that cannot be identified: no scheme and no such path / urlparse raises / the library refuses the URL
+        by_kind = {}
+        for st in string_pool(rng):
+            if "\x00" in st:
+                continue                     # cannot be passed to a real process; the string route covers NUL in-process
+            kd = classify_string(st, (os.fsdecode(root),))
+            if kd:
+                by_kind.setdefault(kd, []).append(st)
+        for kd in ("missing", "badurl", "refusedurl"):
+            fx[kd], fx[kd + "2"] = rng.sample(by_kind[kd], 2)
+        fx["url3"] = rng.choice(by_kind["url"])
+        fx["dir2"] = top(b"u")
+        _populate(rng, fx["dir2"], nonutf8, b"C")
         # git repository (non bare): two commits, a branch, a lightweight and an annotated tag, a tag of a tree
         repo = top(b"g")
         os.mkdir(repo)
@@ -250,6 +407,9 @@ def build_fixture(fxspec):
             f.write(_rdata(rng))
         os.mkdir(os.path.join(repo, b"subdir"))
         with open(os.path.join(repo, b"subdir", b"m.c"), "wb") as f:
+            f.write(_rdata(rng))
+        os.mkdir(os.path.join(repo, b"only_Gen"))
+        with open(os.path.join(repo, b"only_Gen", b"g.h"), "wb") as f:
             f.write(_rdata(rng))
         _git(r, "add", "-A")
         _git(r, "commit", "-q", "-m", "first")
@@ -295,10 +455,13 @@ def get_fixture(fxspec):
 EXCLUDE = ["sub*"]
 
 
-def _dir_id(path, excluded):
+def _dir_id(path, excluded, patterns=None):
+    """the library's directory for `path`: Directory.from_disk with the library's own pattern filter when patterns are
+    given (whatever that filter does with a pattern is, for C18, what the command must do too)"""
     from swh.model import from_disk
     if excluded:
-        flt = from_disk.ignore_directories_patterns(path, [p.encode() for p in EXCLUDE])
+        pats = EXCLUDE if patterns is None else patterns
+        flt = from_disk.ignore_directories_patterns(path, [p.encode() for p in pats])
         return from_disk.Directory.from_disk(path=path, path_filter=flt)
     return from_disk.Directory.from_disk(path=path)
 
@@ -339,11 +502,8 @@ def expected_ids(fx):
             ids["dir:%s:%d" % (k, x)] = str(_dir_id(p, x).swhid())
     for k in ("file", "dir", "linkfile", "linkdir", "gitrepo"):
         # out of scope (-t origin <path>); a path that is not valid UTF-8 is not a valid origin URL
-        try:
-            ids["origin:" + k] = str(model.Origin(url=os.fsdecode(fx[k])).swhid())
-        except UnicodeEncodeError:
-            ids["origin:" + k] = None
-    ids["origin:url"] = str(model.Origin(url=fx["url"]).swhid())
+        ids["origin:" + k] = origin_id(os.fsdecode(fx[k]))
+    ids["origin:url"] = origin_id(fx["url"])
     ids["snapshot"] = str(_snapshot_id(fx["gitrepo"]))
     # the fixture must be generic: distinct designated objects, distinct identifiers; the exclusion removes something
     generic = [ids["pathcontent"], ids["linktext:linkfile"], ids["linktext:linkdir"], ids["empty"], ids["stdin"],
@@ -353,9 +513,13 @@ def expected_ids(fx):
     return ids
 
 
-def obj_id(fx, kind, obj, excluded):
+def obj_id(fx, kind, obj, excluded, argstr=None):
     """identifier of designation `obj` (as named by the driver) for the argument of kind `kind`"""
     ids = fx["ids"]
+    if obj in ("nothing", "refused"):
+        return None
+    if obj == "origin" and (argstr is not None or kind in STRING_KINDS):
+        return origin_id(kind_arg(fx, kind, argstr))
     if obj == "pathcontent":
         return ids["pathcontent"]
     if obj == "targetfile":
@@ -390,7 +554,18 @@ def tree_nodes(fx, kind, excluded):
 
 
 # ------------------------------------------------------------------ running the command
-def cli_args(fx, cfg, row):
+def kind_arg(fx, k, argstr=None):
+    """the command-line argument (str) of a one-argument case"""
+    if argstr is not None:
+        return argstr
+    if k == "stdin":
+        return "-"
+    if k in STRING_KINDS:
+        return fx[k]
+    return os.fsdecode(fx[k])
+
+
+def cli_args(fx, cfg, row, argstr=None):
     k, t, d, f, r, v, x = cfg
     args = []
     if t != "auto" or fx["spec"].get("explicit_auto"):
@@ -410,18 +585,15 @@ def cli_args(fx, cfg, row):
             args += ["--exclude", p]
     if v != "none":
         dk, dx = row["des"].split(",")
-        good = obj_id(fx, k, dk, dx == "1")
+        good = obj_id(fx, k, dk, dx == "1", argstr) or PLACEHOLDER
         if v == "match":
             given = good
         else:
             given = non_matching(good, fx["spec"]["seed"] + KINDS.index(k) + TYPES.index(t) + d + 2 * f + 4 * r + 8 * x)
         args += ["--verify", given]
-    if k == "stdin":
-        arg = "-"
-    elif k == "url":
-        arg = fx["url"]
-    else:
-        arg = os.fsdecode(fx[k])
+    arg = kind_arg(fx, k, argstr)
+    if arg.startswith("-") and arg != "-":
+        args.append("--")                 # an argument that looks like an option
     return args + [arg], arg
 
 
@@ -446,7 +618,8 @@ def canon_run(exit_code, stdout, exc):
     if lines and lines[-1] == "":
         lines = lines[:-1]
     ids = sorted(l for l in lines if l.startswith("swh:"))
-    res = {"exit": exit_code, "lines": ids, "other_lines": len(lines) - len(ids)}
+    res = {"exit": exit_code, "lines": ids, "ordered": [l for l in lines if l.startswith("swh:")],
+           "other_lines": len(lines) - len(ids)}
     if exc is not None:
         res["exc"] = exc
     return res
@@ -492,8 +665,11 @@ def run_subprocess(args, stdin, cwd):
     exc = None
     err = p.stderr.decode("utf-8", "replace")
     if "Traceback (most recent call last)" in err:
-        last = [l for l in err.strip().splitlines() if l and not l.startswith(" ")][-1]
-        exc = last.split(":")[0].split(".")[-1]
+        # the exception line is the first unindented line after the last frame (the message may span lines)
+        ls = err[err.rindex("Traceback (most recent call last)"):].splitlines()
+        lastframe = max(i for i, l in enumerate(ls) if l.startswith("  File "))
+        head = next(l for l in ls[lastframe + 1:] if l and not l.startswith(" "))
+        exc = head.split(":")[0].split(".")[-1]
     return canon_run(p.returncode, p.stdout.decode("utf-8", "surrogateescape"), exc)
 
 
@@ -501,19 +677,25 @@ def impl(case):
     """run the command; everything that needs the fixture on disk is evaluated here, while it exists: the observed
     run and its difference with the observable of the model's / the specification's outcome (driver tokens)"""
     try:
+        if "multi" in case:
+            return impl_many(case)
         fx = get_fixture(case["fx"])
         cfg = case["cfg"]
         row = table_row(cfg)
-        args, arg = cli_args(fx, cfg, row)
+        argstr = case.get("argstr")
+        args, arg = cli_args(fx, cfg, row, argstr)
         stdin = fx["stdin"] if cfg[0] == "stdin" else None
         if case.get("sub"):
             run = run_subprocess(args, stdin, os.fsdecode(fx["root"]))
         else:
             run = run_inprocess(args, stdin)
-        res = {"run": run, "args": [a if a != arg else "<" + cfg[0] + ">" for a in args],
+        res = {"run": run, "args": [a if a != arg else "<" + cfg[0] + ">" for a in args[:-1]] + ["<" + cfg[0] + ">"],
                "outcomes": {"model": row["model"], "spec": row["spec"]}}
-        res["diff_model"] = diff(run, expected(fx, cfg, row["model"]))
-        res["diff_spec"] = res["diff_model"] if row["spec"] == row["model"] else diff(run, expected(fx, cfg, row["spec"]))
+        if cfg[0] in STRING_KINDS:
+            res["argument"] = arg if len(arg) < 200 else arg[:80] + "...(%d characters)" % len(arg)
+        res["diff_model"] = diff(run, expected(fx, cfg, row["model"], argstr))
+        res["diff_spec"] = (res["diff_model"] if row["spec"] == row["model"]
+                            else diff(run, expected(fx, cfg, row["spec"], argstr)))
         return res
     except Exception as e:
         import traceback
@@ -521,15 +703,29 @@ def impl(case):
 
 
 # ------------------------------------------------------------------ expected observable of an outcome
-def expected(fx, cfg, outcome):
+def canon_expected(texts):
+    """expected output lines through the same canonicalisation as the observed output (an argument may contain a
+    newline): (sorted identifier lines, identifier lines in order, number of other lines)"""
+    pieces = "\n".join(texts).split("\n") if texts else []
+    ids = [q for q in pieces if q.startswith("swh:")]
+    return sorted(ids), ids, len(pieces) - len(ids)
+
+
+def expected(fx, cfg, outcome, argstr=None):
     """canonical observable that the outcome (a driver token such as print,dirpath,1,1,0) stands for"""
     k = cfg[0]
     parts = outcome.split(",")
     if parts[0] == "usage":
         return {"exit": 2, "lines": [], "usage": True}
-    if cfg[1] == "origin" and k not in ("stdin", "url") and fx["ids"]["origin:" + k] is None:
-        # out of scope: -t origin <path that is not valid UTF-8>; Origin() refuses such a URL (not in the table)
-        return {"exit": 1, "lines": [], "exc": "UnicodeEncodeError"}
+    arg = kind_arg(fx, k, argstr)
+    if cfg[1] == "origin" and k != "stdin" and origin_id(arg) is None:
+        # out of scope facts that are not in the table: -t origin <path or string that model.Origin refuses (not valid
+        # UTF-8, 2048 bytes or more)> is the same usage error as for a refused URL
+        return {"exit": 2, "lines": [], "usage": True}
+    if parts[0] == "crash" and k in STRING_KINDS and cfg[1] in ("content", "directory"):
+        # out of scope: which OSError/ValueError the library call raises for a string that is no path depends on the
+        # string (no such file, name too long, embedded NUL): ask the library
+        return {"exit": 1, "lines": [], "exc": library_error(cfg[1], arg, bool(cfg[6])) or parts[1]}
     if parts[0] == "exit0":
         return {"exit": 0, "lines": []}
     if parts[0] == "exit1":
@@ -538,10 +734,10 @@ def expected(fx, cfg, outcome):
         return {"exit": 1, "lines": [], "exc": parts[1]}
     assert parts[0] == "print"
     obj, excluded, shown, listing = parts[1], parts[2] == "1", parts[3] == "1", parts[4] == "1"
-    arg = "-" if k == "stdin" else fx["url"] if k == "url" else os.fsdecode(fx[k])
     if not listing:
-        i = obj_id(fx, k, obj, excluded)
-        return {"exit": 0, "lines": [i + "\t" + arg if shown else i], "other_lines": 0}
+        i = obj_id(fx, k, obj, excluded, argstr)
+        lines, _, other = canon_expected([i + "\t" + arg if shown else i])
+        return {"exit": 0, "lines": lines, "other_lines": other}
     ids, pairs = tree_nodes(fx, k, excluded)
     return {"exit": 0, "listing": True, "ids": ids, "pairs": pairs, "shown": shown, "other_lines": 0}
 
@@ -583,6 +779,291 @@ def diff(obs, exp):
     return None
 
 
+# ------------------------------------------------------------------ several OBJECTS in one invocation
+# A multi case: {"fx": ..., "multi": {"args": [ref, ...], "type": t, "deref": 0|1, "fname": 0|1, "recur": 0|1,
+#                                    "ver": none|match|nonmatch, "patterns": [glob, ...]}}
+# ref names an object of the fixture set; REF_KIND gives its kind for the model.
+REF_KIND = {"file": "file", "dir": "dir", "dir2": "dir", "lt": "dir", "dir_sub": "dir", "dir_other": "dir",
+            "linkfile": "linkfile", "linkdir": "linkdir", "stdin": "stdin", "url": "url", "url2": "url", "url3": "url",
+            "gitrepo": "gitrepo", "missing": "missing", "missing2": "missing", "badurl": "badurl", "badurl2": "badurl",
+            "refusedurl": "refusedurl", "refusedurl2": "refusedurl"}
+STRING_REFS = [r for r, k in REF_KIND.items() if k in STRING_KINDS]
+UNIDENTIFIABLE = ["missing", "missing2", "badurl", "badurl2", "refusedurl", "refusedurl2"]
+DIR_REFS = ["dir", "dir2", "lt", "dir_sub", "dir_other", "gitrepo", "linkdir"]
+# patterns that match a directory of that tree (root-relative, fnmatch) and - mostly - nothing in the other trees
+SPECIFIC = {"dir": ["only_A*", "sub*/only_A*"], "dir2": ["only_C*", "*/only_C*"], "lt": ["only_B*", "sub*/only_B*"],
+            "linkdir": ["only_B*", "*/only_B*"], "dir_sub": ["deep*", "only_A*"], "dir_other": ["nomatch*"],
+            "gitrepo": ["only_G*", "subdir", ".git", "*.git"]}
+GENERIC = ["sub*", "*/deep*", "empty*", "copy*", "only_*", "nomatch*", "*/only_*"]
+_MANY = {}
+
+
+def ref_arg(fx, ref):
+    """the command-line argument (str) for a reference"""
+    if ref == "stdin":
+        return "-"
+    if ref in STRING_REFS:
+        return fx[ref]
+    return os.fsdecode(fx["linkdir_target"] if ref == "lt" else fx[ref])
+
+
+def many_req(m):
+    return "many %s %d %d %d %s %d %s" % (m["type"], m["deref"], m["fname"], m["recur"], m["ver"],
+                                           1 if m["patterns"] else 0,
+                                           ",".join(REF_KIND[r] for r in m["args"]) or ".")
+
+
+def parse_many(line):
+    if not line.startswith("ok "):
+        raise RuntimeError("driver: " + line)
+    return dict(tok.split("=", 1) for tok in line.split()[1:])
+
+
+def many_row(m):
+    rq = many_req(m)
+    if rq not in _MANY:
+        _MANY[rq] = parse_many(core.run_driver(ID, [rq])[0])
+    return _MANY[rq]
+
+
+def prefetch_many(cases):
+    reqs = sorted({many_req(c["multi"]) for c in cases if "multi" in c} - set(_MANY))
+    for rq, line in zip(reqs, core.run_driver(ID, reqs)):
+        _MANY[rq] = parse_many(line)
+
+
+def ref_dir(fx, ref, patterns):
+    """(library Directory, walked from the argument as given) for a directory-like reference, cached"""
+    key = (ref, tuple(patterns))
+    if key not in fx["_dirs"]:
+        fx["_dirs"][key] = _dir_id(os.fsencode(ref_arg(fx, ref)), bool(patterns), list(patterns))
+    return fx["_dirs"][key]
+
+
+def ref_obj_id(fx, ref, obj, excluded, patterns):
+    """the identifier the library computes for designation `obj` of the argument `ref`"""
+    from swh.model import model as M
+    ids = fx["ids"]
+    kind = REF_KIND[ref]
+    if obj in ("pathcontent", "targetfile"):
+        return ids["pathcontent"]
+    if obj == "linktext":
+        return ids["linktext:" + kind]
+    if obj in ("empty", "stdin", "snapshot"):
+        return ids[obj]
+    if obj in ("dirpath", "dirtarget"):
+        return str(ref_dir(fx, ref, patterns if excluded else []).swhid())
+    if obj == "origin":
+        return origin_id(ref_arg(fx, ref))
+    raise KeyError(obj)
+
+
+def many_args(fx, m):
+    args = []
+    if m["type"] != "auto":
+        args += ["--type", m["type"]]
+    if not m["deref"]:
+        args.append("--no-dereference")
+    if not m["fname"]:
+        args.append("--no-filename")
+    if m["recur"]:
+        args.append("--recursive")
+    for p in m["patterns"]:
+        args += ["--exclude", p]
+    opts = list(args)
+    if m["ver"] != "none":
+        good = fx["ids"]["pathcontent"]
+        if len(m["args"]) == 1:
+            row = table_row([REF_KIND[m["args"][0]], m["type"], m["deref"], m["fname"], m["recur"], m["ver"],
+                             1 if m["patterns"] else 0])
+            dk, dx = row["des"].split(",")
+            if dk not in ("nothing", "refused"):
+                good = ref_obj_id(fx, m["args"][0], dk, dx == "1", m["patterns"]) or good
+        args += ["--verify", good if m["ver"] == "match" else non_matching(good, len(m["args"]))]
+    objs = [ref_arg(fx, r) for r in m["args"]]
+    if any(o.startswith("-") and o != "-" for o in objs):
+        args.append("--")
+        opts = opts + ["--"]
+    return args + objs, opts
+
+
+def expected_many(fx, m, run):
+    """observable of a run token  <line>|<line>;<end>"""
+    lines_tok, end = run.split(";")
+    lines = [] if lines_tok == "." else [l.split(",") for l in lines_tok.split("|")]
+    exp = {"exit": {"done": 0, "usage": 2, "exit0": 0, "exit1": 1}.get(end.split(",")[0], 1), "other_lines": 0}
+    if end.startswith("crash"):
+        exp["exc"] = end.split(",")[1]
+    if len(lines) == 1 and lines[0][3] == "1":         # -r: the listing of the FIRST argument
+        ref = m["args"][0]
+        d = ref_dir(fx, ref, m["patterns"] if lines[0][1] == "1" else [])
+        pairs = {(str(n.swhid()), os.fsdecode(n.data["path"])) for n in d.iter_tree(dedup=False)}
+        exp.update({"listing": True, "ids": {i for i, _ in pairs}, "pairs": pairs, "shown": lines[0][2] == "1"})
+        return exp
+    out = []
+    for ref, (obj, ex, sh, ls) in zip(m["args"], lines):
+        i = ref_obj_id(fx, ref, obj, ex == "1", m["patterns"])
+        if i is None:                                  # -t origin <something model.Origin refuses> (out of scope):
+            exp.update({"exit": 2})                    # the usage error of a refused URL, after the lines before it
+            exp.pop("exc", None)
+            exp.pop("other_lines", None)
+            end = "usage"
+            break
+        out.append(i + "\t" + ref_arg(fx, ref) if sh == "1" else i)
+    if (end in ("exit0", "exit1") and m["type"] == "origin" and REF_KIND[m["args"][0]] != "stdin"
+            and origin_id(ref_arg(fx, m["args"][0])) is None):
+        exp.update({"exit": 2})                                  # same out-of-scope case under --verify
+    if end.startswith("crash") and m["type"] in ("content", "directory") and len(lines) < len(m["args"]):
+        bad = m["args"][len(lines)]
+        if REF_KIND[bad] in STRING_KINDS:                        # which error a string that is no path gets: ask the library
+            exp["exc"] = library_error(m["type"], ref_arg(fx, bad), bool(m["patterns"])) or exp["exc"]
+    _, exp["ordered"], other = canon_expected(out)
+    if end != "done":
+        exp.pop("other_lines", None)
+    else:
+        exp["other_lines"] = other
+    return exp
+
+
+def diff_many(obs, exp):
+    if exp.get("listing"):
+        return diff(obs, exp)
+    if obs["exit"] != exp["exit"]:
+        return "exit code %s (exception %s), expected %s" % (obs["exit"], obs.get("exc"), exp["exit"])
+    if obs.get("exc") != exp.get("exc"):
+        return "unhandled exception %s, expected %s" % (obs.get("exc"), exp.get("exc"))
+    if obs["ordered"] != exp["ordered"]:
+        for k, (a, b) in enumerate(zip(obs["ordered"] + [None] * len(exp["ordered"]), exp["ordered"])):
+            if a != b:
+                return "line %d (argument #%d): printed %r, the library computes %r" % (k + 1, k + 1, a, b)
+        return "%d lines printed, %d expected" % (len(obs["ordered"]), len(exp["ordered"]))
+    if "other_lines" in exp and obs["other_lines"] != exp["other_lines"]:
+        return "unexpected extra output lines"
+    return None
+
+
+def impl_many(case):
+    fx = get_fixture(case["fx"])
+    m = case["multi"]
+    row = many_row(m)
+    args, opts = many_args(fx, m)
+    stdin = fx["stdin"] if "stdin" in m["args"] else None
+    if case.get("sub"):
+        run = run_subprocess(args, stdin, os.fsdecode(fx["root"]))
+    else:
+        run = run_inprocess(args, stdin)
+    shown = ["<%s>" % r for r in m["args"]]
+    res = {"run": run, "args": args[:len(args) - len(m["args"])] + shown,
+           "outcomes": {"model": row["model"], "spec": row["spec"]}}
+    res["diff_model"] = diff_many(run, expected_many(fx, m, row["model"]))
+    if row["inscope"] != "1":
+        res["diff_spec"] = None            # the property says nothing; the model is still compared
+    elif row["spec"] == row["model"]:
+        res["diff_spec"] = res["diff_model"]
+    else:
+        res["diff_spec"] = diff_many(run, expected_many(fx, m, row["spec"]))
+    # the same arguments, one invocation each, same options: in scope the lines must be the same, in order
+    if row["inscope"] == "1" and m["ver"] == "none" and not m["recur"] and len(m["args"]) > 1 and not res["diff_model"]:
+        alone, alone_exit = [], 0
+        for r in m["args"]:
+            one = run_inprocess(opts + [ref_arg(fx, r)], fx["stdin"] if r == "stdin" else None)
+            if one.get("exc"):
+                alone = None
+                res["diff_alone"] = "argument %s alone: unhandled %s" % (r, one.get("exc"))
+                break
+            alone += one["ordered"]
+            if one["exit"] != 0:                      # an argument that cannot be identified ends the run there
+                alone_exit = one["exit"]
+                break
+        if alone is not None and alone_exit != run["exit"]:
+            res["diff_alone"] = "exit code %s in one invocation, %s with one invocation per argument" % (run["exit"], alone_exit)
+        elif alone is not None and alone != run["ordered"]:
+            k = next((i for i, (a, b) in enumerate(zip(run["ordered"], alone)) if a != b), min(len(alone), len(run["ordered"])))
+            res["diff_alone"] = "line %d: %r in one invocation, %r when argument #%d is given alone" % (
+                k + 1, run["ordered"][k] if k < len(run["ordered"]) else None, alone[k] if k < len(alone) else None, k + 1)
+    return res
+
+
+def _pick_patterns(rng, refs, n):
+    """n patterns; the first one matches something in a directory argument other than the first (when there is one)"""
+    dirs = [r for r in refs if r in SPECIFIC]
+    pats = []
+    later = [r for r in dirs[1:] if r != dirs[0]] or dirs[1:] or dirs
+    if later:
+        pats.append(rng.choice(SPECIFIC[rng.choice(later)] if later[0] != dirs[0] or rng.random() < 0.5 else GENERIC[:1]))
+    while len(pats) < n:
+        src = rng.random()
+        if src < 0.4 and dirs:
+            pats.append(rng.choice(SPECIFIC[dirs[0]]))          # matches in the first, mostly not in the others
+        elif src < 0.7 and dirs:
+            pats.append(rng.choice(SPECIFIC[rng.choice(dirs)]))
+        else:
+            pats.append(rng.choice(GENERIC))
+    out = []
+    for q in pats:
+        if q not in out:
+            out.append(q)
+    return out
+
+
+def gen_many(rng, fx, n):
+    cases = []
+    allrefs = list(REF_KIND)
+    for i in range(n):
+        fam = rng.random()
+        m = {"type": "auto", "deref": 1, "fname": rng.choice([1, 1, 0]), "recur": 0, "ver": "none", "patterns": []}
+        k = rng.choice([2, 2, 3, 3, 4, 5])
+        if fam < 0.45:
+            # directories (the same one twice, different ones, nested ones) with exclusion patterns
+            first = rng.choice(DIR_REFS)
+            refs = [first] + [rng.choice(DIR_REFS) if rng.random() < 0.8 else first for _ in range(k - 1)]
+            if rng.random() < 0.3:
+                refs.insert(rng.randrange(len(refs) + 1), rng.choice(["file", "linkfile", "url", "stdin"]))
+            m["type"] = rng.choice(["auto", "auto", "directory"]) if all(r in DIR_REFS for r in refs) else "auto"
+            m["deref"] = 1 if "linkdir" in refs and m["type"] == "directory" else rng.choice([1, 1, 0])
+            m["patterns"] = _pick_patterns(rng, refs, rng.choice([1, 1, 2, 3]))
+        elif fam < 0.7:
+            # mixed kinds, automatic type; now and then an argument that cannot be identified, at any position
+            identifiable = [r for r in allrefs if r not in UNIDENTIFIABLE]
+            refs = [rng.choice(identifiable) for _ in range(k)]
+            if rng.random() < 0.35:
+                refs.insert(rng.randrange(len(refs) + 1), rng.choice(UNIDENTIFIABLE))
+            m["deref"] = rng.choice([1, 0])
+            m["patterns"] = _pick_patterns(rng, refs, rng.choice([0, 0, 1, 2]))
+        elif fam < 0.85:
+            # an explicit type with arguments it suits
+            t = rng.choice(["content", "content", "origin", "snapshot", "directory"])
+            pool = {"content": ["file", "linkfile", "stdin", "file", "linkfile"],
+                    "origin": ["url", "url2", "url3", "url", "refusedurl"],
+                    "snapshot": ["gitrepo"], "directory": [r for r in DIR_REFS if r != "linkdir"] + ["linkdir"]}[t]
+            refs = [rng.choice(pool) for _ in range(k)]
+            m["type"] = t
+            m["deref"] = 1 if t == "directory" else rng.choice([1, 0])
+            if t == "content" and not m["deref"] and rng.random() < 0.5:
+                refs.append("linkdir")                       # a link that is not followed is a content
+            m["patterns"] = _pick_patterns(rng, refs, rng.choice([0, 1, 2]))
+        else:
+            # anything: --verify with several arguments, --recursive (first argument a directory or not), explicit
+            # types that do not suit every argument (an error after the lines of the arguments before it)
+            refs = [rng.choice(allrefs) for _ in range(rng.choice([1, 2, 3, 4]))]
+            m["type"] = rng.choice(TYPES)
+            m["deref"] = rng.choice([1, 0])
+            m["recur"] = rng.choice([0, 1])
+            m["ver"] = rng.choice(["none", "none", "match", "nonmatch"])
+            m["patterns"] = _pick_patterns(rng, refs, rng.choice([0, 1, 2]))
+        seen = False
+        out = []
+        for r in refs:                                      # '-' at most once
+            if r == "stdin":
+                if seen:
+                    continue
+                seen = True
+            out.append(r)
+        m["args"] = out
+        cases.append({"fx": fx, "multi": m})
+    return cases
+
+
 # ------------------------------------------------------------------ harness API
 def gen(rng, tier):
     nsets = 2 if tier == "quick" else 10
@@ -600,22 +1081,81 @@ def gen(rng, tier):
             fx["explicit_defaults"] = 1  # --dereference / --filename / --type auto spelled out
             fx["explicit_auto"] = 1
         for c in cfgs:
+            if tier == "quick" and s > 0 and c[0] in ("missing", "badurl", "refusedurl"):
+                continue          # quick tier: the rows of the string kinds once (the string route varies the strings)
             cases.append({"fx": fx, "cfg": c})
-        for c in rng.sample(cfgs, 30 if tier == "quick" else 40):
+        for c in rng.sample(cfgs, 20 if tier == "quick" else 40):
             cases.append({"fx": fx, "cfg": c, "sub": 1})
+        if s == 0 or (tier == "thorough" and s < 5):
+            cases += gen_strings(rng, fx, tier)
+        many = gen_many(rng, fx, 200 if tier == "quick" else 1500)
+        for c in rng.sample(many, 4 if tier == "quick" else 25):
+            many.append({"fx": fx, "multi": c["multi"], "sub": 1})
+        cases += many
+    prefetch_many(cases)
     return cases
 
 
+def gen_strings(rng, fx, tier):
+    """arguments that name no existing path, one by one: every family of string_pool() plus random short strings, under
+    --type auto and every explicit type, a few option combinations each, a few through the real subprocess"""
+    strings = string_pool(rng) + random_strings(rng, 25 if tier == "quick" else 300)
+    combos = [(1, 1, 0, "none", 0), (0, 0, 1, "nonmatch", 1), (1, 0, 0, "match", 0), (0, 1, 1, "none", 1)]
+    cases, subs = [], []
+    for st in strings:
+        kd = classify_string(st)
+        if kd is None:
+            continue
+        for t in TYPES:
+            if t == "snapshot" and opens_as_repo(st):
+                continue
+            for (d, f, r, v, x) in (combos if t in ("auto", "origin") or tier == "thorough" else combos[1:2]):
+                cases.append({"fx": fx, "cfg": [kd, t, d, f, r, v, x], "argstr": st})
+        if "\x00" not in st:
+            subs.append({"fx": fx, "cfg": [kd, rng.choice(["auto", "auto", "origin", "content"]), 1, 1, 0, "none", 0],
+                         "argstr": st, "sub": 1})
+    return cases + rng.sample(subs, min(len(subs), 8 if tier == "quick" else 40))
+
+
 def nontrivial(c):
+    if "multi" in c:
+        m = c["multi"]
+        return len(m["args"]) >= 2 and ((m["type"] != "auto") + (not m["deref"]) + (not m["fname"]) + bool(m["recur"])
+                                        + (m["ver"] != "none") + bool(m["patterns"]) >= 1)
     k, t, d, f, r, v, x = c["cfg"]
     return (t != "auto") + (not d) + (not f) + bool(r) + (v != "none") + bool(x) >= 2
 
 
 def classify(c):
+    if "multi" in c:
+        m = c["multi"]
+        row = many_row(m)
+        ks = ["several-arguments", "several:n=%d" % len(m["args"]), "several:end=" + row["model"].split(";")[1].split(",")[0],
+              "several:in-scope" if row["inscope"] == "1" else "several:out-of-scope"]
+        ndirs = sum(1 for r in m["args"] if r in DIR_REFS)
+        if m["patterns"] and ndirs >= 2:
+            ks.append("several:exclude-with->=2-directories")
+        if len(set(m["args"])) < len(m["args"]):
+            ks.append("several:same-argument-twice")
+        if m["recur"]:
+            ks.append("several:recursive")
+        if m["ver"] != "none":
+            ks.append("several:verify")
+        if c.get("sub"):
+            ks.append("subprocess")
+        return ks
     k, t, d, f, r, v, x = c["cfg"]
     row = table_row(c["cfg"])
     ks = ["kind=" + k, "type=" + t, "model=" + row["model"].split(",")[0],
           "in-scope" if row["inscope"] == "1" else "out-of-scope"]
+    if "argstr" in c:
+        st = c["argstr"]
+        ks.append("string-argument")
+        for name, test in (("brackets", "[" in st or "]" in st), ("NUL", "\x00" in st), ("newline", "\n" in st),
+                           ("not-UTF-8", any(0xdc80 <= ord(ch) <= 0xdcff for ch in st)), ("long", len(st) > 2000),
+                           ("empty-or-blank", not st.strip()), ("leading-dash", st.startswith("-"))):
+            if test:
+                ks.append("string:" + name)
     if c.get("sub"):
         ks.append("subprocess")
     if r:
@@ -626,10 +1166,14 @@ def classify(c):
 
 
 def requests(c):
+    if "multi" in c:
+        return [many_req(c["multi"])]
     return [cfg_req(c["cfg"])]
 
 
 def model(c, resp):
+    if "multi" in c:
+        return parse_many(resp[0])
     return parse_row(resp[0])
 
 
@@ -642,7 +1186,10 @@ def oracle(c, ires, mres):
     if ires["outcomes"]["spec"] != mres["spec"]:
         return None
     if ires["diff_spec"]:
-        return "%s: spec %s: %s" % (" ".join(ires["args"]), mres["spec"], ires["diff_spec"])
+        return "%s%s: spec %s: %s" % (" ".join(ires["args"]), " = %r" % ires["argument"] if "argument" in ires else "",
+                                      mres["spec"], ires["diff_spec"])
+    if ires.get("diff_alone"):
+        return "%s: %s" % (" ".join(ires["args"]), ires["diff_alone"])
     return None
 
 
@@ -657,14 +1204,39 @@ def compare(c, ires, mres):
 
 
 def shrink(c):
+    if "multi" in c:
+        m = c["multi"]
+        def mk(**kw):
+            return {"fx": c["fx"], "multi": dict(m, **kw)}
+        if c.get("sub"):
+            yield mk()
+        for i in range(len(m["args"])):
+            if len(m["args"]) > 1:
+                yield mk(args=m["args"][:i] + m["args"][i + 1:])
+        for i in range(len(m["patterns"])):
+            yield mk(patterns=m["patterns"][:i] + m["patterns"][i + 1:])
+        for key, dflt in (("type", "auto"), ("deref", 1), ("fname", 1), ("recur", 0), ("ver", "none")):
+            if m[key] != dflt:
+                yield mk(**{key: dflt})
+        for i, r in enumerate(m["args"]):
+            for simpler in ("dir", "file"):
+                if r != simpler and REF_KIND[r] == REF_KIND[simpler]:
+                    yield mk(args=m["args"][:i] + [simpler] + m["args"][i + 1:])
+        return
     k, t, d, f, r, v, x = c["cfg"]
+    extra = {"argstr": c["argstr"]} if "argstr" in c else {}
     if c.get("sub"):
-        yield {"fx": c["fx"], "cfg": c["cfg"]}
+        yield dict({"fx": c["fx"], "cfg": c["cfg"]}, **extra)
     for i, dflt in ((1, "auto"), (2, 1), (3, 1), (4, 0), (5, "none"), (6, 0)):
         if c["cfg"][i] != dflt:
             cfg = list(c["cfg"])
             cfg[i] = dflt
-            yield {"fx": c["fx"], "cfg": cfg}
+            yield dict({"fx": c["fx"], "cfg": cfg}, **extra)
+    if "argstr" in c:
+        st = c["argstr"]
+        for cand in [st[:len(st) // 2], st[len(st) // 2:], st[1:], st[:-1]]:
+            if cand != st and classify_string(cand) == k:
+                yield {"fx": c["fx"], "cfg": c["cfg"], "argstr": cand}
 
 
 def pre_checks(ctx):
@@ -704,34 +1276,45 @@ COQ_SAMPLE = 1 << 30
 
 
 def coq_cases(cases):
-    """every row of the decision table (in_scope, in_scope_literal, designated, identify_model, spec, spec_strict and the four
+    """several-arguments rows (in_scope_many, identify_many, spec_many; up to 600 distinct requests) and
+    every row of the decision table (in_scope, in_scope_literal, designated, identify_model, spec, spec_strict and the five
     pre-repair variants) evaluated by vm_compute inside Coq vs the extracted driver; each outcome is a few small numbers
     (constructor indices), one checksum per row"""
     from . import core
-    seen = {}
+    seen, mseen = {}, {}
     for c in cases:
-        seen.setdefault(tuple(c["cfg"]), c)
-    cases[:] = list(seen.values())
-    reqs = [cfg_req(c["cfg"]) for c in cases]
+        if "multi" in c:
+            if len(mseen) < 600:
+                mseen.setdefault(many_req(c["multi"]), c)
+        else:
+            seen.setdefault(tuple(c["cfg"]), c)
+    cases[:] = list(seen.values()) + list(mseen.values())
+    reqs = [cfg_req(c["cfg"]) for c in seen.values()]
+    mreqs = list(mseen)
     KIND = {"file": "AFile", "dir": "ADir", "linkfile": "ALinkFile", "linkdir": "ALinkDir", "stdin": "AStdin", "url": "AUrl",
-            "gitrepo": "AGitRepo"}
+            "gitrepo": "AGitRepo", "missing": "AMissing", "badurl": "ABadUrl", "refusedurl": "ARefusedUrl"}
     TYPE = {"auto": "TAuto", "content": "TContent", "directory": "TDirectory", "origin": "TOrigin", "snapshot": "TSnapshot"}
     VER = {"none": "VNone", "match": "VMatch", "nonmatch": "VNonMatch"}
     B = {"1": "true", "0": "false"}
-    OBJ = ["pathcontent", "linktext", "targetfile", "empty", "stdin", "dirpath", "dirtarget", "origin", "snapshot"]
-    CRASH = ["TypeError", "NotADirectoryError", "FileNotFoundError", "NotGitRepository"]
+    OBJ = ["pathcontent", "linktext", "targetfile", "empty", "stdin", "dirpath", "dirtarget", "origin", "snapshot", "nothing",
+           "refused"]
+    CRASH = ["TypeError", "NotADirectoryError", "FileNotFoundError", "NotGitRepository", "ValueError"]
     def term(rq):
         _, k, t, d, f, r, v, x = rq.split(" ")
         return "mkCfg %s %s %s %s %s %s %s" % (KIND[k], TYPE[t], B[d], B[f], B[r], VER[v], B[x])
+    def mterm(rq):
+        _, t, d, f, r, v, x, ks = rq.split(" ")
+        return "(mkCfg AFile %s %s %s %s %s %s, [%s])" % (TYPE[t], B[d], B[f], B[r], VER[v], B[x],
+                                                          "; ".join(KIND[k] for k in ks.split(",")) if ks != "." else "")
     src = ("From Coq Require Import List NArith.\nFrom SWH.model Require Import Cli.\nImport ListNotations.\n" + core.COQ_CHECKSUM + """
 Definition b (x : bool) : N := if x then 1%N else 0%N.
 Definition objn (o : obj) : N :=
   match o with
   | OPathContent => 0 | OLinkText => 1 | OTargetFile => 2 | OEmptyContent => 3 | OStdin => 4 | ODirAtPath => 5
-  | ODirAtLinkTarget => 6 | OOrigin => 7 | OSnapshot => 8
+  | ODirAtLinkTarget => 6 | OOrigin => 7 | OSnapshot => 8 | ONothing => 9 | ORefusedOrigin => 10
   end%N.
 Definition crashn (c : crash) : N :=
-  match c with CrTypeError => 0 | CrNotADirectory => 1 | CrFileNotFound => 2 | CrNotGitRepository => 3 end%N.
+  match c with CrTypeError => 0 | CrNotADirectory => 1 | CrFileNotFound => 2 | CrNotGitRepository => 3 | CrValueError => 4 end%N.
 Definition outc (o : outcome) : list N :=
   match o with
   | Print o e s l => [1%N; objn o; b e; b s; b l]
@@ -743,8 +1326,16 @@ Definition row (c : cfg) : list N :=
   [b (in_scope c); b (in_scope_literal c); objn o; b e]
   ++ outc (identify_model c) ++ outc (spec c) ++ outc (spec_strict c)
   ++ outc (identify_old_realpath c) ++ outc (identify_old_rectype c) ++ outc (identify_old_autolink c)
-  ++ outc (identify_old_recfollows c).
-""" + "Definition cases : list cfg := [" + ";\n ".join(term(rq) for rq in reqs) + "].\nEval vm_compute in map (fun c => cksum (row c)) cases.\n")
+  ++ outc (identify_old_recfollows c) ++ outc (identify_old_originuncaught c).
+Definition endn (e : mend) : list N :=
+  match e with MDone => [1%N] | MUsageEnd => [2%N] | MExit0 => [3%N] | MExit1 => [4%N] | MCrashEnd c => [5%N; crashn c] end.
+Definition runc (r : mout) : list N :=
+  match r with MOut ls e => flat_map (fun l => match l with (o, x, s, g) => [objn o; b x; b s; b g] end) ls ++ [9%N] ++ endn e end.
+Definition mrow (p : cfg * list argkind) : list N :=
+  [b (in_scope_many (fst p) (snd p))] ++ runc (identify_many (fst p) (snd p)) ++ runc (spec_many (fst p) (snd p)).
+""" + "Definition cases : list cfg := [" + ";\n ".join(term(rq) for rq in reqs) + "].\n"
+           + "Definition mcases : list (cfg * list argkind) := [" + ";\n ".join(mterm(rq) for rq in mreqs) + "].\n"
+           + "Eval vm_compute in map (fun c => cksum (row c)) cases ++ map (fun p => cksum (mrow p)) mcases.\n")
     def outc(s):
         p = s.split(",")
         if p[0] == "print":
@@ -756,8 +1347,20 @@ Definition row (c : cfg) : list N :=
         r = parse_row(line)
         o, e = r["des"].split(",")
         out = [int(r["inscope"]), int(r["literal"]), OBJ.index(o), int(e)]
-        for k in ("model", "spec", "strict", "old1", "old2", "old3", "old4"):
+        for k in ("model", "spec", "strict", "old1", "old2", "old3", "old4", "old5"):
             out += outc(r[k])
         return out
+    def runc(tok):
+        ls, e = tok.split(";")
+        out = []
+        for l in ([] if ls == "." else ls.split("|")):
+            o, x, sh, g = l.split(",")
+            out += [OBJ.index(o), int(x), int(sh), int(g)]
+        ep = e.split(",")
+        return out + [9] + ([5, CRASH.index(ep[1])] if ep[0] == "crash" else [{"done": 1, "usage": 2, "exit0": 3, "exit1": 4}[ep[0]]])
+    def mrow(line):
+        r = parse_many(line)
+        return [int(r["inscope"])] + runc(r["model"]) + runc(r["spec"])
     exp = [core.py_cksum(row(r)) for r in core.run_driver(ID, reqs)]
+    exp += [core.py_cksum(mrow(r)) for r in core.run_driver(ID, mreqs)] if mreqs else []
     return src, exp
